@@ -18,7 +18,7 @@ PROPS = {
         assumptions=["snapshot total = sum of shares (createNewSnapshot builds it so; C10 proves it for the snapshot model)"],
     ),
     "C01": dict(
-        lean_modules=["PalomaModel.Props.C01"],
+        lean_modules=["PalomaModel.Props.C01"], gen=["Atomicity.lean"],
         harness_test="TestBridge", env={"VERIF_PROP": "C01"},
         n_quick=120, n_thorough=1500, thorough_seeds=8, timeout_quick=900,
         spec_ops=[],
@@ -63,7 +63,7 @@ PROPS = {
         assumptions=["validators stay bonded (checkOrchestratorValidatorInSet); pruning (cutoff 1000 nonces) is not reached"],
     ),
     "C13": dict(
-        lean_modules=["PalomaModel.Props.C13"],
+        lean_modules=["PalomaModel.Props.C13"], gen=["Atomicity.lean"],
         harness_test="TestBridge", env={"VERIF_PROP": "C13"},
         extra_tests=[{"test": "TestC13Prune", "dir": "C13B", "n_quick": 400, "n_thorough": 4000}],
         n_quick=120, n_thorough=1500, thorough_seeds=8, timeout_quick=900,
